@@ -2,3 +2,4 @@ pub mod diffmon;
 pub mod c03;
 pub mod c20;
 pub mod callmon;
+pub mod relmon;
